@@ -3,22 +3,34 @@ import UPVerif.Core.Problem
 import UPVerif.Core.Sim
 import UPVerif.Core.Fresh
 import UPVerif.Core.MAProblem
+import UPVerif.Core.Compile.CER
 /-
 `MAConditionalEffectsRemover._compile` (engines/compilers/ma_conditional_effects_remover.py:75-115)
 with the helper it inherits, `ConditionalEffectsRemover._create_unconditional_actions`
-(conditional_effects_remover.py:218-269, instantaneous branch), and what that helper calls:
+(conditional_effects_remover.py:237-295, instantaneous branch) as it is after the repairs d88a7f6
+("drops a variant whose fired effects conflict") and eacfe5f (`_instances_of_conditional_effect`,
+l.223-235), and what that helper calls:
 `powerset` (utils.py:20), `InstantaneousAction.add_precondition` (transition.py:170),
 `_add_effect_instance` → `check_conflicting_effects` (effect.py:385; `Sim.staticStep` is its model),
 `check_and_simplify_preconditions` (compilers/utils.py:106), `get_fresh_name` (utils.py:343;
 `Fresh.getFreshName`).
 
 This is the builder of C37's OWN copy of the per-action powerset split (the single-agent model of
-C06/C07 had not landed when this was written).
+C06/C07, `Core/Compile/CER.lean`, mirrors the same repaired helper for `Problem`s; the two are proved
+to yield the same variants in `Props/C37Fix.lean`).
 
-The simplifier is a PARAMETER (`simp`, property C11's).  What the code does when adding the
-unconditional copy of a selected conditional effect raises `UPConflictingEffectsException` is a
-two-valued switch: `asFound` = the `continue` of the code as found (the variant is kept WITHOUT the
-conflicting effect: defect D-C06a, owned by C06/C07), `repaired` = the whole variant is skipped.
+The simplifier is a PARAMETER (`simp`, property C11's).  When adding the unconditional copy of a
+selected conditional effect raises `UPConflictingEffectsException` the code sets
+`conflicting_effects`, leaves the loop (`break`, l.275-277) and yields nothing for this subset
+(`continue`, l.283-284): the WHOLE variant is dropped.  (Before d88a7f6 only the conflicting effect
+was dropped and the variant kept — the former finding D-C37-conflicting-variant.)
+
+`_instances_of_conditional_effect` (l.223-235): a conditional FORALL effect whose condition mentions a
+variable is replaced by its instances over the objects of the (multi-agent) problem before the subsets
+are enumerated.  This is the same code the single-agent compiler runs and its model is SHARED:
+`Compile.cerInstances` / `Compile.cerExpand` (`Core/Compile/CER.lean`, with `Sim.expandEffect` = the model
+of `Effect.expand_effect`), applied to `MAProblem.objProblem` (the objects of the multi-agent problem).
+The per-action machinery below (`condBodies` …) works on the action AFTER that step.
 -/
 namespace UPVerif.MA
 open UPVerif UPVerif.Expr UPVerif.Sim
@@ -54,10 +66,6 @@ def combinations {α : Type} : List α → Nat → List (List α)
 def powerset {α : Type} (l : List α) : List (List α) :=
   (List.range (l.length + 1)).flatMap (combinations l)
 
-inductive ConflictMode where
-  | asFound | repaired
-  deriving DecidableEq, Repr
-
 /-- the bookkeeping `_fluents_assigned` / `_fluents_inc_dec` after re-adding effects one by one;
     `none` = `UPConflictingEffectsException` -/
 def staticAdd : List Effect → StaticAcc → Option StaticAcc
@@ -70,38 +78,37 @@ def staticAdd : List Effect → StaticAcc → Option StaticAcc
 /-- the unconditional copy `Effect(e.fluent, e.value, TRUE, e.kind, e.forall)` -/
 def uncond (e : Effect) : Effect := { e with cond := tt }
 
-/-- the loop `for i, e in enumerate(cond_effects)` (conditional_effects_remover.py:237-258) for the
-    subset `p`; `none` = the variant is abandoned (mode `repaired` only) -/
-def variantLoop (mode : ConflictMode) (p : List Nat) :
+/-- the loop `for i, e in enumerate(cond_effects)` (conditional_effects_remover.py:259-282) for the
+    subset `p`; `none` = `conflicting_effects` (l.276: the loop is left, l.283-284: nothing is yielded) -/
+def variantLoop (p : List Nat) :
     List (Nat × Effect) → List Expr → StaticAcc → List Effect → Option (List Expr × List Effect)
   | [], pre, _, effs => some (pre, effs)
   | (i, e) :: rest, pre, acc, effs =>
     if p.contains i then
       let pre' := addPre pre e.cond
       match staticStep acc (uncond e) with
-      | some acc' => variantLoop mode p rest pre' acc' (effs ++ [uncond e])
-      | none =>
-        match mode with
-        | .asFound => variantLoop mode p rest pre' acc effs
-        | .repaired => none
-    else variantLoop mode p rest (addPre pre (mkNot e.cond)) acc effs
+      | some acc' => variantLoop p rest pre' acc' (effs ++ [uncond e])
+      | none => none
+    else variantLoop p rest (addPre pre (mkNot e.cond)) acc effs
 
 /-- `enumerate` -/
 def enumFrom {α : Type} : Nat → List α → List (Nat × α)
   | _, [] => []
   | n, x :: xs => (n, x) :: enumFrom (n + 1) xs
 
+/-- `cond_effects` (l.249-251) of an action whose conditional effects have already been through
+    `_instances_of_conditional_effect` (`Compile.cerExpand`); `action.conditional_effects` keeps the order -/
 def condEffects (a : Action) : List Effect := a.effs.filter (·.isConditional)
 def uncondEffects (a : Action) : List Effect := a.effs.filter (fun e => !e.isConditional)
 
 /-- one iteration of `for p in powerset(range(len(cond_effects)))`: outer `none` = an unconditional
     effect of the action itself is rejected when re-added (impossible for an action the library
     accepted; the exception would escape from `compile`), inner `none` = no action is yielded -/
-def condVariant (mode : ConflictMode) (simp : Expr → Expr) (a : Action) (p : List Nat) : Option (Option Body) :=
+def condVariant (simp : Expr → Expr) (a : Action) (p : List Nat) : Option (Option Body) :=
   match staticAdd (uncondEffects a) ⟨[], []⟩ with
   | none => none
   | some acc0 =>
-    match variantLoop mode p (enumFrom 0 (condEffects a)) a.pre acc0 (uncondEffects a) with
+    match variantLoop p (enumFrom 0 (condEffects a)) a.pre acc0 (uncondEffects a) with
     | none => some none
     | some (pre, effs) =>
       if effs.isEmpty then some none
@@ -118,8 +125,8 @@ def collect {α : Type} : List (Option (Option α)) → Option (List α)
   | some (some b) :: rest => (collect rest).map (b :: ·)
 
 /-- `_create_unconditional_actions(action, new_problem)`: the yielded bodies, in order -/
-def condBodies (mode : ConflictMode) (simp : Expr → Expr) (a : Action) : Option (List Body) :=
-  collect ((powerset (List.range (condEffects a).length)).map (condVariant mode simp a))
+def condBodies (simp : Expr → Expr) (a : Action) : Option (List Body) :=
+  collect ((powerset (List.range (condEffects a).length)).map (condVariant simp a))
 
 /-- an action about to be added to the agent under construction -/
 structure Proto where
@@ -132,14 +139,15 @@ structure Proto where
   deriving Repr, Inhabited
 
 /-- the actions of the compiled agent in the order they are added: clones of the unconditional
-    actions first, then the variants of every conditional action -/
-def condProtos (mode : ConflictMode) (simp : Expr → Expr) (ag : Agent) : Option (List Proto) :=
+    actions first, then the variants of every conditional action (its conditional forall effects expanded
+    over the objects `O` of the problem where their condition mentions a variable) -/
+def condProtos (O : Problem) (simp : Expr → Expr) (ag : Agent) : Option (List Proto) :=
   let unc : List Proto := (ag.actions.filter (fun a => !Action.isConditional a)).map (fun a =>
     { base := a.name, keepName := true, origin := some a.name, params := a.params, body := ⟨a.pre, a.effs⟩ })
   let rec go : List Action → Option (List Proto)
     | [] => some []
     | a :: as =>
-      match condBodies mode simp a, go as with
+      match condBodies simp (Compile.cerExpand O a), go as with
       | some bs, some rest =>
         some (bs.map (fun b => { base := a.name, keepName := false, origin := some a.name, params := a.params, body := b }) ++ rest)
       | _, _ => none
@@ -168,19 +176,19 @@ def staticNames (agentNames : List String) (env : List FluentDecl) (done : List 
     todo.flatMap Agent.names
 
 /-- the loop `for ag in problem.agents` -/
-def condAgents (mode : ConflictMode) (simp : Expr → Expr) (agentNames : List String) (env : List FluentDecl) :
+def condAgents (O : Problem) (simp : Expr → Expr) (agentNames : List String) (env : List FluentDecl) :
     List CAgent → List Agent → Option (List CAgent)
   | done, [] => some done
   | done, ag :: todo =>
-    match condProtos mode simp ag with
+    match condProtos O simp ag with
     | none => none
     | some ps =>
       let acts := assignNames (staticNames agentNames env done ag todo) ps []
-      condAgents mode simp agentNames env (done ++ [{ name := ag.name, fluents := ag.fluents, actions := acts }]) todo
+      condAgents O simp agentNames env (done ++ [{ name := ag.name, fluents := ag.fluents, actions := acts }]) todo
 
 /-- `MAConditionalEffectsRemover._compile`; `none` = `UPConflictingEffectsException` escapes -/
-def compileCond (mode : ConflictMode) (simp : Expr → Expr) (P : MAProblem) : Option Compiled :=
-  (condAgents mode simp (P.agents.map (·.name)) P.env [] P.agents).map (fun ags =>
+def compileCond (simp : Expr → Expr) (P : MAProblem) : Option Compiled :=
+  (condAgents P.objProblem simp (P.agents.map (·.name)) P.env [] P.agents).map (fun ags =>
     { name := "ma_cerm_" ++ P.name, env := P.env, agents := ags, goals := P.goals })
 
 end UPVerif.MA
